@@ -8,6 +8,7 @@ import VsgProofs.Lemmas.BaseWsEffects
 import VsgProofs.Lemmas.BaseWsLines
 import VsgProofs.Lemmas.BaseBindEffects
 import VsgProofs.Lemmas.PostPhase1
+import VsgProofs.Lemmas.BaseCaseTok
 namespace Vsgm.C07
 open Vsgm
 
@@ -176,5 +177,33 @@ theorem postPhase1_crSeq (blCls : Nat) (l : List Tok) : crSeq (Post.postPhase1 b
   rw [Post.fixTrailingWhitespace_eq, Post.fixBlankLines_eq, Post.ftwGo_crSeq, Post.fblGo_crSeq]
 
 /-! ### END ag_bind -/
+
+/-! ### BEGIN ag_bcase (case family, B-full) -/
+/-! ### layer B, the case family -/
+
+theorem crSeq_eq_kinds (l : List Tok) :
+    crSeq l = (l.map (·.kind)).flatMap (fun k => if k == Kind.cr then [()] else []) := by
+  induction l with
+  | nil => rfl
+  | cons x l ih =>
+    simp only [crSeq, List.flatMap_cons, List.map_cons] at ih ⊢
+    rw [ih]
+    rfl
+
+theorem crSeq_of_kinds (a b : List Tok) (h : a.map (·.kind) = b.map (·.kind)) : crSeq a = crSeq b := by
+  rw [crSeq_eq_kinds, crSeq_eq_kinds, h]
+
+/-- every `_fix_violation` of the case family, for ALL actions and all regions: no line break is
+    added or removed (a case fix never moves a token to another line) -/
+theorem bfix_case_crSeq (owner : String) (params action : Base.KV) (old new : List Tok)
+    (ho : owner ∈ Base.caseOwners) (h : Base.fixByOwner owner params action old = some (.ok new)) :
+    crSeq new = crSeq old ∧ new.length = old.length := by
+  rcases Base.fixByOwner_case_shape owner ho params action old new h with rfl | ⟨k, t, e, hk, rfl⟩
+  · exact ⟨rfl, rfl⟩
+  · refine ⟨crSeq_of_kinds _ _ ?_, by simp⟩
+    have := congrArg (List.map Prod.snd) (Base.set_val_shape old k t e hk)
+    simpa [List.map_map, Function.comp_def] using this
+
+/-! ### END ag_bcase -/
 
 end Vsgm.C07
